@@ -44,6 +44,9 @@ pub struct Spec {
     pub truncate: bool,
     pub style: Option<String>,
     pub alt: Option<String>,
+    /// leading zeros written in front of the width (`{msg:0006}` is the width 6)
+    #[serde(default)]
+    pub zeros: u8,
 }
 
 #[derive(Debug, Clone, Serialize, Deserialize, PartialEq)]
@@ -55,10 +58,13 @@ pub enum TPart {
     Ph { key: KeyRef, spec: Option<Spec> },
     /// `{wide_msg}`: the message, cut or padded so that the line fills the terminal (at most one per line)
     WideMsg,
+    /// `{wide_msg:>}`: the same, right-aligned in what the rest of its line leaves
+    WideMsgRight,
 }
 
 /// marks the reference entry of a `{wide_msg}` part (handled by `matches`)
 const WIDE: &str = "\u{0}wide_msg";
+const WIDE_R: &str = "\u{0}wide_msg_right";
 
 #[derive(Debug, Clone, Serialize, Deserialize)]
 pub struct FidCase {
@@ -104,6 +110,7 @@ pub fn encode(parts: &[TPart]) -> String {
             }
             TPart::NewLine => t.push('\n'),
             TPart::WideMsg => t.push_str("{wide_msg}"),
+            TPart::WideMsgRight => t.push_str("{wide_msg:>}"),
             TPart::Ph { key, spec } => {
                 t.push('{');
                 t.push_str(&key_name(key));
@@ -113,6 +120,7 @@ pub fn encode(parts: &[TPart]) -> String {
                         t.push_str(a.flag());
                     }
                     if let Some(w) = s.width {
+                        t.push_str(&"0".repeat(s.zeros as usize));
                         t.push_str(&w.to_string());
                     }
                     if s.truncate {
@@ -152,6 +160,7 @@ fn reference(parts: &[TPart], tab_width: usize) -> Vec<Vec<String>> {
             TPart::BraceWs(c) => vec![model::expand_tabs(&format!("{{{c}"), tab_width)],
             TPart::NewLine => vec!["\n".to_string()],
             TPart::WideMsg => vec![WIDE.to_string()],
+            TPart::WideMsgRight => vec![WIDE_R.to_string()],
             TPart::Ph { key, spec } => {
                 let e = key_expansion(key);
                 match spec.as_ref().and_then(|s| s.width.map(|w| (s, w))) {
@@ -185,6 +194,21 @@ fn matches(alts: &[Vec<String>], got: &str) -> bool {
             }
             false
         }
+        Some((first, rest)) if first.len() == 1 && first[0] == WIDE_R => {
+            // padding followed by the message
+            let msg = BarSetup::default().msg;
+            let spaces = got.len() - got.trim_start_matches(' ').len();
+            // (where the rest of the line leaves fewer columns than the message has, a part of it is shown)
+            let mut pieces: Vec<&str> = vec![];
+            for i in 0..=msg.len() {
+                for j in i..=msg.len() {
+                    if msg.is_char_boundary(i) && msg.is_char_boundary(j) && (i == 0 && j == msg.len() || j - i < msg.len()) {
+                        pieces.push(&msg[i..j]);
+                    }
+                }
+            }
+            (0..=spaces).rev().any(|k| pieces.iter().any(|p| (p.len() == msg.len() || k == 0) && got[k..].strip_prefix(p).map_or(false, |tail| matches(rest, tail))))
+        }
         Some((first, rest)) => {
             let mut seen: Vec<&String> = vec![];
             for a in first {
@@ -210,8 +234,8 @@ fn normalise(parts: &[TPart]) -> Vec<TPart> {
     for p in parts {
         match p {
             TPart::NewLine => wide_on_line = false,
-            TPart::WideMsg if wide_on_line => continue,
-            TPart::WideMsg => wide_on_line = true,
+            TPart::WideMsg | TPart::WideMsgRight if wide_on_line => continue,
+            TPart::WideMsg | TPart::WideMsgRight => wide_on_line = true,
             _ => {}
         }
         out.push(p.clone());
@@ -264,7 +288,7 @@ fn run_fidelity(c0: &FidCase) -> CaseResult {
         Err(RenderErr::Pattern(p)) => return Err(Fail::new("harness", format!("rendering {template:?}: {p}"))),
     };
     let alts = reference(&c.parts, tab_width);
-    let first: String = alts.iter().map(|a| if a[0] == WIDE { "Msg" } else { a[0].as_str() }).collect();
+    let first: String = alts.iter().map(|a| if a[0] == WIDE || a[0] == WIDE_R { "Msg" } else { a[0].as_str() }).collect();
     // `lines()` convention: a final newline does not start another line
     let want_lines = if first.is_empty() { 0 } else { first.strip_suffix('\n').unwrap_or(&first).matches('\n').count() + 1 };
     // "{" + line break at the very end of a template: whether the empty rest counts as a line is not stated
@@ -290,7 +314,7 @@ fn run_fidelity(c0: &FidCase) -> CaseResult {
         if want_lines == 0 { vec![] } else { first.strip_suffix('\n').unwrap_or(&first).split('\n').collect::<Vec<_>>() }
     );
     // a line with {wide_msg} fills the terminal exactly, unless the rest alone is wider
-    let has_wide = c.parts.iter().any(|p| matches!(p, TPart::WideMsg));
+    let has_wide = c.parts.iter().any(|p| matches!(p, TPart::WideMsg | TPart::WideMsgRight));
     // (only where template lines and output lines coincide: no line break inside a literal or an expansion)
     if has_wide && !brace_nl && !c.parts.iter().any(|p| matches!(p, TPart::Ph { key, .. } if key_expansion(key).contains('\n'))) {
         let mut line = 0;
@@ -301,7 +325,7 @@ fn run_fidelity(c0: &FidCase) -> CaseResult {
         for (p, a) in c.parts.iter().zip(alts.iter()) {
             match p {
                 TPart::NewLine => line += 1,
-                TPart::WideMsg => wide_line[line.min(want_lines.saturating_sub(1))] = true,
+                TPart::WideMsg | TPart::WideMsgRight => wide_line[line.min(want_lines.saturating_sub(1))] = true,
                 _ => {
                     let i = line.min(want_lines.saturating_sub(1));
                     let w = console::measure_text_width(&a[0]);
@@ -340,6 +364,8 @@ fn run_fidelity(c0: &FidCase) -> CaseResult {
     v.label_if(c.parts.iter().any(|p| matches!(p, TPart::Ph { spec: Some(Spec { width: Some(_), .. }), .. })), "width");
     v.label_if(c.parts.iter().any(|p| matches!(p, TPart::Ph { spec: Some(Spec { truncate: true, width: Some(_), .. }), .. })), "truncate");
     v.label_if(c.parts.iter().any(|p| matches!(p, TPart::Ph { spec: Some(Spec { style: Some(_), .. }), .. })), "style");
+    v.label_if(c.parts.iter().any(|p| matches!(p, TPart::Ph { spec: Some(Spec { width: Some(_), zeros, .. }), .. } if *zeros >= 4)), "width_written_with_leading_zeros");
+    v.label_if(c.parts.iter().any(|p| matches!(p, TPart::WideMsgRight)), "wide_msg_right_aligned");
     v.label_if(max_width > 255, "width_gt_255");
     v.label_if(max_width > u16::MAX as u32, "width_beyond_u16_accepted");
     Ok(v)
@@ -399,7 +425,8 @@ fn spec_strategy() -> BoxedStrategy<Option<Spec>> {
         style,
         alt,
     )
-        .prop_map(|(align, width, truncate, style, alt)| Spec { align, width, truncate, alt: if style.is_some() { alt } else { None }, style });
+        .prop_map(|(align, width, truncate, style, alt)| Spec { align, width, truncate, alt: if style.is_some() { alt } else { None }, style, zeros: 0 });
+    let spec = (spec, prop_oneof![6 => Just(0u8), 1 => 1u8..4, 1 => 4u8..12]).prop_map(|(s, zeros)| Spec { zeros, ..s });
     proptest::option::weighted(0.7, spec).boxed()
 }
 
@@ -408,7 +435,7 @@ fn part_strategy() -> BoxedStrategy<TPart> {
         4 => lit_strategy().prop_map(TPart::Lit),
         2 => prop_oneof![4 => Just(' '), 1 => Just('\t'), 1 => Just('\n')].prop_map(TPart::BraceWs),
         1 => Just(TPart::NewLine),
-        1 => Just(TPart::WideMsg),
+        1 => prop_oneof![Just(TPart::WideMsg), Just(TPart::WideMsgRight)],
         4 => (key_strategy(), spec_strategy()).prop_map(|(key, spec)| TPart::Ph { key, spec }),
     ]
     .boxed()
@@ -485,7 +512,7 @@ fn decode_fid(u: &mut FuzzInput) -> FidCase {
         parts.push(match u.n(10) {
             0..=3 => TPart::Lit((0..=u.n(6)).map(|_| u.pick(&['a', 'Z', '0', ' ', ':', '.', '/', '!', '<', '{', '}', '"', '\t', '\u{e9}', '\u{4e16}'])).collect()),
             4 | 5 => TPart::BraceWs([' ', ' ', '\t', '\n'][u.n(3)]),
-            6 => if u.n(2) == 0 { TPart::WideMsg } else { TPart::NewLine },
+            6 => match u.n(3) { 0 => TPart::WideMsg, 1 => TPart::WideMsgRight, _ => TPart::NewLine },
             _ => {
                 let key = match u.n(7) {
                     0..=3 => KeyRef::Custom(u.n(CUSTOM.len() - 1)),
@@ -502,6 +529,7 @@ fn decode_fid(u: &mut FuzzInput) -> FidCase {
                         truncate: u.bool(),
                         alt: if style.is_some() && u.bool() { Some("blue".into()) } else { None },
                         style,
+                        zeros: [0u8, 0, 0, 1, 7][u.n(4)],
                     })
                 };
                 TPart::Ph { key, spec }
@@ -542,7 +570,7 @@ pub fn property() -> Property {
                 cases: |t| t.pick(12_000, 1_600_000),
                 run: run_fidelity,
                 signature: no_signature,
-                essential: &["two_placeholders", "brace_ws_adjacent_to_literal", "multi_line", "escaped_braces", "unknown_key", "width", "truncate", "style", "width_gt_255"],
+                essential: &["two_placeholders", "brace_ws_adjacent_to_literal", "multi_line", "escaped_braces", "unknown_key", "width", "truncate", "style", "width_gt_255", "width_written_with_leading_zeros", "wide_msg_right_aligned"],
                 workers: w,
                 decode: Some(decode_fid),
             }),
